@@ -800,10 +800,28 @@ def _inline_in_block(stmts, helpers, caller, cls, rep: Report, failed: set):
                                 targets |= {e.id for e in t.elts if isinstance(e, ast.Name)}
                     elif isinstance(st, ast.AnnAssign) and isinstance(st.target, ast.Name):
                         targets = {st.target.id}
+        proj_helper = None
+        if call is None and isinstance(st, (ast.Return, ast.Assign)) and isinstance(core, ast.Subscript) and isinstance(core.slice, ast.Constant) \
+                and isinstance(core.slice.value, int) and isinstance(core.value, ast.Call) and not awaited:
+            # `return h(x)[k]` / `t = h(x)[k]` where every result of h is a tuple display: h projected on its k-th component
+            nm_ = _callee_name(core.value, cls)[0]
+            if nm_ in helpers and helpers[nm_] is not caller and not isinstance(helpers[nm_], ast.AsyncFunctionDef):
+                k_ = core.slice.value
+                hp = copy.deepcopy(helpers[nm_])
+                rr = [x for x in ast.walk(hp) if isinstance(x, ast.Return)]
+                if rr and all(isinstance(x.value, ast.Tuple) and -len(x.value.elts) <= k_ < len(x.value.elts)
+                              and all(_simple_expr(e) or isinstance(e, (ast.Subscript, ast.Constant)) for e in x.value.elts) for x in rr):
+                    for x in rr:
+                        x.value = x.value.elts[k_]
+                    proj_helper = hp
+                    call = core.value
+                    mode = "tail" if isinstance(st, ast.Return) else "value"
+                    if isinstance(st, ast.Assign):
+                        targets = {t.id for t in st.targets if isinstance(t, ast.Name)}
         if call is None:
             out.append(st)
             continue
-        h = helpers[_callee_name(call, cls)[0]]
+        h = proj_helper if proj_helper is not None else helpers[_callee_name(call, cls)[0]]
         exp = None
         if mode == "tail":
             rets = _returns(h)
@@ -813,7 +831,7 @@ def _inline_in_block(stmts, helpers, caller, cls, rep: Report, failed: set):
                     exp = (exp[0] + [ast.copy_location(ast.Return(exp[1]), st)], None)
             else:
                 exp = _expand(h, call, caller, cls, targets, "tail")
-                if exp and not isinstance(h.body[-1], (ast.Return, ast.Raise)):
+                if exp and not _always_exits(h.body):
                     exp = (exp[0] + [ast.copy_location(ast.Return(ast.Constant(None)), st)], None)
         else:
             tt = None
